@@ -9,7 +9,8 @@
       fx5  C03-F5 (16cf34b): a dead end gives back the captures it was given (not nil)
 
     Static-child priorities are not modelled (static indices are unique, the order of
-    the children is irrelevant for every function here).  [Delete] is not modelled.
+    the children is irrelevant for every function here).  [Delete] / [delNode] / [deleteChild]
+    are transcribed over this file in C06/TreeDel.v (owner: C06) and used by C02/Reach.v.
 
     [abs] maps a tree to the content of the pattern-map machine (Radix/Machine.v),
     [wfb] is the (executable) shape invariant under which Radix/TreeProofs.v proves
